@@ -203,7 +203,7 @@ CS = "permuta.enumeration_strategies.core_strategies:"
 # Perm.is_sum_decomposable / is_skew_decomposable: verified, see contracts/perm_more.py
 
 
-@contract(CS + "fstrip", params={"perm": "Perm"}, returns="Seq", props=("C19",))
+@contract(CS + "fstrip", params={"perm": "Perm"}, returns="Perm", props=("C19",))
 class FStrip:
     # remove the leading minimum if the permutation is 1 (+) p
     def requires(c, perm):
@@ -214,12 +214,17 @@ class FStrip:
         return c.and_(
             c.implies(perm[0] == 0, lambda: c.and_(c.len(result) == n - 1, c.forall(0, n - 1, lambda i: result[i] == perm[i + 1] - 1))),
             c.implies(perm[0] != 0, lambda: c.seq_eq(result, perm)),
+            c.is_perm(result),
         )
+
+    def ghost_inverse(c, perm, result):
+        g = perm.meta["ginv"]
+        return lambda v: c.ite(perm[0] == 0, g(c.int(v) + 1) - 1, g(c.int(v)))
 
     modifies = ()
 
 
-@contract(CS + "bstrip", params={"perm": "Perm"}, returns="Seq", props=("C19",))
+@contract(CS + "bstrip", params={"perm": "Perm"}, returns="Perm", props=("C19",))
 class BStrip:
     # remove the trailing maximum if the permutation is p (+) 1
     def requires(c, perm):
@@ -230,7 +235,11 @@ class BStrip:
         return c.and_(
             c.implies(perm[n - 1] == n - 1, lambda: c.and_(c.len(result) == n - 1, c.forall(0, n - 1, lambda i: result[i] == perm[i]))),
             c.implies(perm[n - 1] != n - 1, lambda: c.seq_eq(result, perm)),
+            c.is_perm(result),
         )
+
+    def ghost_inverse(c, perm, result):
+        return perm.meta["ginv"]
 
     modifies = ()
 
